@@ -3130,32 +3130,28 @@ func (dsc *dataStoreCommand) sort(sourceKeyName, byPattern, destKeyName string, 
 	}
 
 	if !dontSort {
-		// pick a sorting strategy
-		if alpha {
-			if !desc {
-				// asc alpha
-				sort.Slice(vals, func(i, j int) bool {
-					return vals[i].sortByStr < vals[j].sortByStr
-				})
-			} else {
-				// desc alpha
-				sort.Slice(vals, func(i, j int) bool {
-					return vals[j].sortByStr < vals[i].sortByStr
-				})
+		// elements with equal sort keys are ordered by the element itself, and
+		// DESC reverses the whole comparison (as Redis' sortCompare does)
+		cmp := func(a, b *sortVal) int {
+			c := 0
+			if alpha {
+				c = strings.Compare(a.sortByStr, b.sortByStr)
+			} else if a.sortByFloat < b.sortByFloat {
+				c = -1
+			} else if a.sortByFloat > b.sortByFloat {
+				c = 1
 			}
-		} else {
-			if !desc {
-				// asc numeric
-				sort.Slice(vals, func(i, j int) bool {
-					return vals[i].sortByFloat < vals[j].sortByFloat
-				})
-			} else {
-				// desc numeric
-				sort.Slice(vals, func(i, j int) bool {
-					return vals[j].sortByFloat < vals[i].sortByFloat
-				})
+			if c == 0 {
+				c = strings.Compare(a.data, b.data)
 			}
+			if desc {
+				c = -c
+			}
+			return c
 		}
+		sort.Slice(vals, func(i, j int) bool {
+			return cmp(&vals[i], &vals[j]) < 0
+		})
 	}
 
 	if limit {
@@ -3164,7 +3160,8 @@ func (dsc *dataStoreCommand) sort(sourceKeyName, byPattern, destKeyName string, 
 			start = 0
 		}
 
-		if count < 0 {
+		if count < 0 || count > len(vals) {
+			// (also keeps start + count from overflowing)
 			count = len(vals)
 		}
 
